@@ -49,6 +49,20 @@ func Like(p1 value.Primary, p2 value.Primary) ternary.Value {
 }
 
 func matchText(text []rune, pattern []rune) ternary.Value {
+	return matchTextFrom(text, pattern, make(map[[2]int]ternary.Value))
+}
+
+// matchTextFrom remembers the results for the rest of the text and the rest of the pattern it has already tried: a
+// pattern with many wildcards over a text that almost matches is then tried once per pair of positions, not once per path.
+func matchTextFrom(text []rune, pattern []rune, tried map[[2]int]ternary.Value) (result ternary.Value) {
+	key := [2]int{len(text), len(pattern)}
+	if t, ok := tried[key]; ok {
+		return t
+	}
+	defer func() {
+		tried[key] = result
+	}()
+
 	anyRunesMinLen, anyRunesMaxLen, searchWord, restPattern := matchCondition(pattern)
 
 	anyRunes := text
@@ -60,7 +74,7 @@ func matchText(text []rune, pattern []rune) ternary.Value {
 		}
 
 		idx := utf8.RuneCountInString(textStr[:bidx])
-		if anyRunesMaxLen < 0 && matchText(text[idx+1:], pattern) == ternary.TRUE {
+		if anyRunesMaxLen < 0 && matchTextFrom(text[idx+1:], pattern, tried) == ternary.TRUE {
 			return ternary.TRUE
 		}
 		anyRunes = text[:idx]
@@ -77,7 +91,7 @@ func matchText(text []rune, pattern []rune) ternary.Value {
 		return ternary.ConvertFromBool(len(anyRunes)+len(searchWord) == len(text))
 	}
 
-	return matchText(text[len(anyRunes)+len(searchWord):], restPattern)
+	return matchTextFrom(text[len(anyRunes)+len(searchWord):], restPattern, tried)
 }
 
 func matchCondition(pattern []rune) (anyRunesMinLen int, anyRunesMaxLen int, searchWord []rune, restPattern []rune) {
